@@ -31,6 +31,8 @@ import (
 	"syscall"
 	"time"
 
+	gobl "github.com/invopop/gobl"
+	"github.com/invopop/gobl/bill"
 	"github.com/invopop/gobl/schema"
 	"github.com/invopop/gobl/tax"
 )
@@ -252,6 +254,32 @@ func c19ValidateAll(rep *c19Report) {
 	}
 }
 
+func c19Use(repo string) {
+	files, _ := filepath.Glob(filepath.Join(repo, "examples", "*", "out", "*.json"))
+	for _, f := range files {
+		func() {
+			defer func() { _ = recover() }()
+			data, err := os.ReadFile(f)
+			if err != nil {
+				return
+			}
+			env := new(gobl.Envelope)
+			if json.Unmarshal(data, env) != nil {
+				return
+			}
+			_ = env.Calculate()
+			_ = env.Validate()
+			if inv, ok := env.Extract().(*bill.Invoice); ok {
+				_, _ = inv.CorrectionOptionsSchema()
+				for _, o := range []schema.Option{bill.Credit, bill.Corrective, bill.Debit} {
+					_, _ = env.Correct(o, bill.WithReason("r"), bill.WithCopyTax())
+				}
+			}
+			_, _ = env.Replicate()
+		}()
+	}
+}
+
 func c19Marshal(v any) (json.RawMessage, error) {
 	doc, err := schema.NewObject(v)
 	if err != nil {
@@ -277,6 +305,12 @@ func init() {
 		return 0
 	}
 	commands["c19dump"] = func(args []string) int {
+		// `c19dump afteruse <repo>`: first put every example envelope of the repository through the library in THIS process
+		// (parse, calculate, validate, correction options, correct, replicate), then dump: the definitions a generator run would
+		// write after the process has handled documents.
+		if len(args) >= 2 && args[0] == "afteruse" {
+			c19Use(args[1])
+		}
 		out := map[string]map[string]json.RawMessage{"regimes": {}, "addons": {}, "catalogues": {}}
 		for _, r := range tax.AllRegimeDefs() {
 			d, err := c19Marshal(r)
